@@ -229,10 +229,8 @@ def run_shard(desc):
         routes = []
         for _ in range(desc['routes']):
             afi, safi = r.choice(FAMS)
-            # the IPv6 /32 static route is left out: see C18 (a cached NetMask object makes the parser refuse the neighbor)
+            # (IPv6 /32 routes were left out until the NetMask fix; now included)
             text, intent = gt.gen_route(r, afi, KIND[safi], rich=0.55, with_pathid=r.random() < 0.4, allow_self=(afi == 1))
-            if afi == 2 and text.split()[1].endswith('/32'):
-                continue
             routes.append((text, intent))
         # one route per prefix: a later definition of the same route replaces the earlier one by design,
         # and distinct prefixes keep the comparison unambiguous
